@@ -167,7 +167,19 @@ static string res_json(const Res& r) {
   return "{\"out\":\"" + r.out + "\",\"v\":" + r.v + ",\"where\":" + to_string(r.where) + "}";
 }
 
+// parses that fail half-way (inside a string, a key, a number, a container) and are caught by the caller: whatever they
+// leave behind must not influence the next parse on the same thread
+static void failed_parses(uint32_t k) {
+  static const char* BAD[] = {"\"abc\\q\"", "\"unterminated", "{\"k", "[\"x\\u12", "\"\\x4", "[1, 2, \"pre\\", "{\"key\\z\":1}", "[12e", "{\"a\":[tru", "\"\\u00"};
+  for (uint32_t i = 0; i < 3; i++) {
+    try {
+      JSON::parse(string(BAD[(k + i) % 10]), (k + i) % 2 == 0);
+    } catch (const exception&) {
+    }
+  }
+}
 static void rt_event(const JSON& tree, uint32_t opts) {
+  if (opts % 3 == 1) failed_parses(opts);
   string text = tree.serialize(opts);
   Res pd = attempt([&](Res& r) { r.v = dump(JSON::parse(text)); });
   Res ps = attempt([&](Res& r) { r.v = dump(JSON::parse(text, true)); });
